@@ -21,6 +21,7 @@ RULE = ("Hypothesis draws a molecule table (1..40 rows; positions in +-1e4 incl.
         "to_file/from_file, and compared with the original (exact for data frames/parquet, to the requested "
         "decimal precision for CSV). Non-trivial = a near-0 / near-pi / pi orientation or a non-numeric / "
         "null-bearing feature column.")
+RULE += (" " + 'Also: strings that look like ISO dates / times.')
 TOLERANCES = {"parquet/dataframe": "pos bit-equal float32; rotation <= 1e-6 rad; features equal incl. dtype",
               "csv(p)": "|dpos| <= 0.5*10^-p + float32 ulp; rotation <= sqrt(3)*0.5*10^-p + 1e-6; float features 0.5*10^-p",
               "csv(None)": "float32 shortest repr round trip: exact"}
